@@ -93,6 +93,9 @@ pub fn hand(b: &mut Builder) {
     b.program("vec_vec_probe", Desc::Vec(bx(Desc::Vec(bx(p)))));
     let p = b.p();
     b.program("option_probe", Desc::Option(bx(p)));
+    b.program("option_string", Desc::Option(bx(sc(Sc::Str))));
+    b.program("vec_option_string", Desc::Vec(bx(Desc::Option(bx(sc(Sc::Str))))));
+    b.program("option_char", Desc::Option(bx(sc(Sc::Char))));
     b.program(
         "option_vec_option_u8",
         Desc::Option(bx(Desc::Vec(bx(Desc::Option(bx(sc(Sc::U8))))))),
@@ -197,6 +200,42 @@ pub fn hand(b: &mut Builder) {
         TypeKind::Tagged { tag: "clé".into(), rename_all: Some(RenameAll::Lower), deny: Deny::No, validate: Validate::No, variants },
     );
     b.program("enum_unicode_lower", e);
+
+    // the empty string is a legal key: `rename = ""`
+    let mut e = b.f("empty_named");
+    e.rename = Some(String::new());
+    let mut e2 = b.f("empty_named_default");
+    e2.default = Dflt::Trait;
+    let fields = vec![e, b.f("plain"), e2];
+    let s = b.strukt("HEmptyKey", None, Deny::Default, Validate::No, fields);
+    b.program("struct_empty_key", s.clone());
+    b.program("vec_struct_empty_key", Desc::Vec(bx(s)));
+    // two fields resolving to the same key: the first one declared reads the entry, the other
+    // one never sees it (it has a default here); every other field is unaffected
+    let mut legacy = b.f("legacy");
+    legacy.rename = Some("userId".to_string());
+    legacy.default = Dflt::Trait;
+    let fields = vec![b.f("user_id"), legacy, b.f("display_name"), b.f("home_page")];
+    let s = b.strukt("HKeyClash", Some(RenameAll::Camel), Deny::No, Validate::No, fields);
+    b.program("struct_key_clash", s.clone());
+    b.program("vec_struct_key_clash", Desc::Vec(bx(s)));
+    let mut legacy = b.f("Legacy");
+    legacy.rename = Some("name".to_string());
+    legacy.default = Dflt::Expr(b.tok());
+    let variants = vec![
+        VariantDef { ident: "Plain".into(), rename: None, rename_all: None, fields: Some(vec![b.f("name"), b.f("other")]) },
+        VariantDef {
+            ident: "Clash".into(),
+            rename: None,
+            rename_all: Some(RenameAll::Lower),
+            fields: Some(vec![b.f("Name"), legacy, b.f("New_Name"), b.f("last")]),
+        },
+    ];
+    let e = b.add_type(
+        "HVariantKeyClash",
+        TypeKind::Tagged { tag: "t".into(), rename_all: None, deny: Deny::Default, validate: Validate::No, variants },
+    );
+    b.program("enum_variant_key_clash", e);
 
     // deny_unknown_fields default and custom, with skipped / renamed fields
     let mut sk = b.f("hidden");
@@ -598,6 +637,7 @@ fn gen_fields(b: &mut Builder, rng: &mut Rng, rename_all: Option<RenameAll>, nam
                 1 => ident.to_uppercase(),
                 2 => format!("{}_renamed", ident.to_lowercase()),
                 3 => rng.pick(&WORDS).to_string(),
+                _ if rng.chance(1, 6) => String::new(),
                 _ => format!("r{}", rng.below(100)),
             });
         }
